@@ -114,6 +114,11 @@ Proof.
   - frames. unfold same_decl, kinds; simp_st; rew_hyps; auto.
   - unfold same_decl, kinds; simp_st; auto.
   - unfold same_decl, kinds; simp_st; auto.
+  - destruct (give_early (users s)) as [us|] eqn:G.
+    + destruct (give_early_spec _ _ G) as (j & u & Hj & Hu & ->). frames.
+      unfold same_decl, kinds; simp_st; rew_hyps. repeat split; auto.
+      eapply map_ukd_set_nth; [exact Hj|reflexivity].
+    + unfold same_decl, kinds; simp_st; auto.
 Qed.
 
 Lemma decl_const ops s : reachable ops s ->
